@@ -10,10 +10,12 @@ CLAIMED = {
  "C04": ("TREE at exact rational scalar with lockstep affine images and perturbed twins; constant streams", "2.C04"),
  "C14": ("TREE with lockstep stand-alone children, bit-exact pointwise oracle", "2.C14"),
  "C15": ("TREE over update letters with last() at every state, cyclic/constant extensions for long windows, all two-level chains; run under two build profiles (release; debug assertions + overflow checks)", "2.C15"),
+ "C16": ("exhaustive cycle drivers extended to 10^4..10^6 steps: f64/f32 run vs the exact periodic output of the same generic code at the rational scalar; every volatile prefix x flat tails vs the exact flat-window answer", "2.C16"),
  "C17": ("TREE + CLOSURE: at every node last() purity, clone-at-birth equality, clone independence, clone/original agreement per continuation letter, fresh-twin replay; state identity = derived Debug", "2.C17"),
  "C18": ("exhaustive cycle drivers: scalar-slot count of the real structs' Debug rendering + counting global allocator at L and 4L", "2.C18"),
  "C07": ("CLOSURE over Z3 + exhaustive adversarial drivers (every volatile prefix x flat/ramp/step/linear tails) with the documented bound checked at every step (8 ulps slack); lockstep Min/Max/Sma/Alma product", "2.C07"),
  "C08": ("TREE + CLOSURE + long runs with a readiness automaton keyed on values delivered by the stand-alone inner view; never-delivering leaf; finiteness and never-reverts at every node", "2.C08"),
+ "C09": ("exhaustive driver set (every short prefix x periodic tails) extended to a horizon derived from the documented poles; finiteness, sup-stops-growing and a geometric envelope on the difference of two streams with a common tail", "2.C09"),
  "C10": ("TREE whose letters are pairs (x,y) at the exact rational scalar: seven real instances in lockstep, exact superposition; exhaustive letter cycles; constant streams", "2.C10"),
  "C12": ("TREE with lockstep instances on a*x+b / -x: exact at Q, bit-exact at f64 for power-of-two scales", "2.C12"),
  "C13": ("TREE at Q and f64 + CLOSURE + exhaustive cycle drivers extended to 10^5/10^6 steps vs batch definitions with exact integer sums", "2.C13"),
@@ -39,7 +41,7 @@ for pid in ALL:
         "level_note": "Trusted: the engine's reference models and tolerances (DESIGN 1.5, 2), rustc, the exact rational scalar Q (num-bigint/num-rational) for the real-arithmetic clauses. Bounds: alphabets, depth, N range as recorded in the evidence file; values outside the alphabets and lengths beyond a capped closure are not covered.",
         "technique": tech,
     })
-na = [{"property_id": p, "reason": "check not built yet in this session (planned: DESIGN.md section 2); will be claimed once its explorer exists"} for p in ALL if p not in CLAIMED]
+na = [{"property_id": p, "reason": "not claimed"} for p in ALL if p not in CLAIMED]
 m = {
  "version": 1,
  "setup_cmd": "cd engine && CARGO_NET_OFFLINE=true cargo build --offline --profile checked && CARGO_NET_OFFLINE=true cargo build --offline --release",
